@@ -60,6 +60,21 @@ def _run_unit(unit):
             rows.append((ps, ser.move_str(m), label, implrun.move_out(pos, m)))
         for m in gen.illformed_moves(rng, size, ill_n, pos):
             rows.append((ps, ser.move_str(m), "ill", implrun.move_out(pos, m)))
+    if not exh:
+        # very tall stacks (17, 33, 40 stones) and slides whose drop counts are far beyond any board
+        import tak
+
+        for _ in range(3):
+            pos, (x, y) = gen.tower_position(rng, size)
+            ps = ser.pos_str(pos)
+            labels["pos:tower"] = labels.get("pos:tower", 0) + 1
+            for t in list(tak.MoveType)[3:]:
+                for d in gen.BIG_DROPS + [1, size]:
+                    for s in ((d,), (d, 1), (1, d), (d, 0)):
+                        m = tak.Move(x, y, t, s)
+                        rows.append((ps, ser.move_str(m), "ill-big", implrun.move_out(pos, m)))
+            for m in universe[:: max(1, len(universe) // 200)]:
+                rows.append((ps, ser.move_str(m), "tower", implrun.move_out(pos, m)))
     model_out = driver.run_lines(["move apply %s %s" % (r[0], r[1]) for r in rows])
     return rows, model_out, labels
 
